@@ -966,6 +966,64 @@ def run_commit(ctx):
                   f"{fl} flush: a removed row is flushed with {wn or 'Ok(()) / nothing'} (expected {none_w or 'a panic or an error, never a silent Ok'})", file=f["file"], line=tb.get("line"))
 
 
+
+def run_k6_keys(ctx):
+    """idx_diff compares the old and new key lists of an attribute with a sorted merge walk, which is only a set
+    difference when neither list holds a key twice (a surplus copy is classified as removed although the value still
+    produces the key: the entry then disappears from that index list). Necessary condition decided here: every
+    ValueSetT key generator that removes duplicates with Vec::dedup sorts the same vector first (dedup only removes
+    *adjacent* duplicates), with nothing appended in between — unless idx_diff itself dedups both lists after sorting."""
+    rule = "K6-keys-are-sets"
+    F = ctx.facts
+    ent = "kanidmd_lib::entry::Entry::<entry::EntrySealed, entry::EntryCommitted>::idx_diff"
+    f = ctx.fn(LIB, ent)
+    sorts = calls_in(f["body"], "sort_unstable", "sort", "sort_by", "sort_unstable_by")
+    dedups = calls_in(f["body"], "Vec::<T, A>::dedup", "dedup", "dedup_by", "dedup_by_key")
+    ctx.check(len(sorts) >= 2, rule, f["fn"], "merge-walk-inputs-sorted", f"{len(sorts)} sort calls before the merge walk",
+              "idx_diff no longer sorts both key lists before its merge walk (shape not understood / the walk is no set difference)",
+              file=f["file"], line=f["line"])
+    lifted = len(dedups) >= 2
+    if lifted:
+        ctx.notes.append("idx_diff dedups both key lists itself: the per-generator obligation is lifted")
+    gens = F.find_fns(LIB, r"^kanidmd_lib::<valueset::.* as valueset::ValueSetT>::generate_idx_(eq|sub|ord)_keys$")
+    ctx.floor(rule, "ValueSetT key generators", len(gens), 40)
+    n_dedup = 0
+    for name in sorted(gens):
+        g = ctx.fn(LIB, name)
+        ty = re.search(r"(ValueSet\w+) as valueset::ValueSetT>::(\w+)$", name)
+        key = f"{ty.group(1)}::{ty.group(2)}" if ty else name
+        calls = [c for c in all_calls(g["body"]) if c.get("e") == "mcall"]
+        for i, c in enumerate(calls):
+            if not is_call_to(c, "dedup", "dedup_by", "dedup_by_key"):
+                continue
+            if "Vec" not in c.get("recv_ty", "") and "Vec" not in " ".join(callee_any(c)):
+                continue
+            n_dedup += 1
+            recv = unwrap(c["recv"])
+            loc = recv["res"].get("local") if recv.get("e") == "path" else None
+            ok = lifted
+            why = "no earlier sort of the same vector in this function"
+            if loc is not None and not lifted:
+                state = None
+                for d in calls[:i]:
+                    r = unwrap(d["recv"])
+                    if r.get("e") == "path" and r["res"].get("local") == loc:
+                        if is_call_to(d, "sort", "sort_unstable", "sort_by", "sort_unstable_by", "sort_by_key", "sort_unstable_by_key", "sort_by_cached_key"):
+                            state = "sorted"
+                        elif is_call_to(d, "push", "extend", "append", "insert", "extend_from_slice"):
+                            if state == "sorted":
+                                why = "elements are appended between the sort and the dedup"
+                            state = None
+                ok = state == "sorted"
+            ctx.check(ok, rule, name, f"sort-before-dedup:{key}",
+                      "sorted before dedup",
+                      f"{key} calls Vec::dedup on a vector that is not sorted at that point ({why}): dedup only removes adjacent duplicates, so a key can "
+                      "be returned twice; idx_diff's merge walk then reports the surplus copy as removed when an attribute changes from a value producing the "
+                      "key more often to one producing it less often, and the entry vanishes from that index list although it still matches",
+                      file=g["file"], line=c.get("line"))
+    ctx.floor(rule, "key generators that dedup", n_dedup, 8)
+
+
 def run(ctx):
     ctx.explanation = ("Structural clause of index coherence: allow-listed callers for every id2entry/index/name-map writer in the whole workspace (K1), "
                        "every id2entry write site followed by entry_index over the same entries (K6), add/remove halves of the five diff functions are "
@@ -976,4 +1034,5 @@ def run(ctx):
     run_k4_entry_index(ctx)
     run_k4_diff(ctx)
     run_commit(ctx)
+    run_k6_keys(ctx)
     ctx.exhaustive = True
